@@ -113,7 +113,7 @@ def tlc(ctx, module, cfg=None, workers=1, trace=None, env=None, timeout=3600, si
     """Run TLC on spec/<module>.tla.  Returns dict(stdout, generated, distinct, viol[list], tagged{tag:[json]}, ok)."""
     meta = ctx.path("tlc-%s-%d" % (module, int(time.time() * 1000) % 100000000))
     cmd = ["tlc", "-workers", str(workers), "-metadir", meta, "-cleanup", "-noGenerateSpecTE",
-           "-config", os.path.join(SPEC, (cfg or module) + ".cfg")]
+           "-config", cfg if (cfg and os.path.isabs(cfg)) else os.path.join(SPEC, (cfg or module) + ".cfg")]
     if simulate:
         cmd += ["-simulate", simulate]
     if depth:
